@@ -318,8 +318,8 @@ func TestGovcHarness_fetchEnumsAndUnions(t *testing.T) {
 		os.WriteFile(root+"/"+rel, []byte(content), 0o644)
 	}
 	os.WriteFile(root+"/go.mod", []byte("module example.com/org/m\n\ngo 1.21\n"), 0o644)
-	w("shapes/kinds/x.go", "package kinds\n\ntype Kind int\n\nconst (\n\tCircle Kind = iota\n\tSquare\n)\n")
-	w("colors/kinds/x.go", "package kinds\n\ntype Kind string\n\nconst (\n\tRed Kind = \"r\"\n\tBlue Kind = \"b\"\n)\n")
+	w("shapes/kinds/x.go", "package kinds\n\ntype Kind int\n\nconst (\n\tCircle Kind = iota\n\tSquare\n)\n\ntype Drawable interface{ draw() }\n\ntype Pen struct{}\n\nfunc (Pen) draw() {}\n")
+	w("colors/kinds/x.go", "package kinds\n\ntype Kind string\n\nconst (\n\tRed Kind = \"r\"\n\tBlue Kind = \"b\"\n)\n\ntype Drawable interface{ draw() }\n\ntype Brush struct{}\n\nfunc (Brush) draw() {}\n\ntype Spray struct{}\n\nfunc (Spray) draw() {}\n")
 	w("deep/a/x.go", "package a\n\nimport \"example.com/org/m/deep/b\"\n\ntype A struct{ B b.Level }\n")
 	w("deep/b/x.go", "package b\n\ntype Level uint8\n\nconst (\n\tLow Level = iota\n\tHigh\n)\n")
 	os.WriteFile(root+"/root.go", []byte("package m\n\nimport (\n\tsk \"example.com/org/m/shapes/kinds\"\n\tck \"example.com/org/m/colors/kinds\"\n\t\"example.com/org/m/deep/a\"\n)\n\ntype T struct {\n\tS sk.Kind\n\tC ck.Kind\n\tA a.A\n\tM Mode\n}\n\ntype Mode int\n\nconst (\n\tOff Mode = iota\n\tOn\n)\n"), 0o644)
@@ -332,7 +332,19 @@ func TestGovcHarness_fetchEnumsAndUnions(t *testing.T) {
 		if err != nil {
 			t.Fatal(err)
 		}
-		enums, _ := fetchEnumsAndUnions(pa)
+		enums, unions := fetchEnumsAndUnions(pa)
+		gotU := map[string]int{}
+		for n, ms := range unions {
+			gotU[n.Obj().Pkg().Path()+"."+n.Obj().Name()] = len(ms)
+		}
+		wantU := map[string]int{"example.com/org/m/shapes/kinds.Drawable": 1, "example.com/org/m/colors/kinds.Drawable": 2}
+		for k, n := range wantU {
+			cases++
+			if gotU[k] != n {
+				fmt.Printf("GOVC-FAIL \"union %s: %d members found, want %d (all: %v)\"\n", k, gotU[k], n, gotU)
+				t.Fatalf("union %s: %d members found, want %d", k, gotU[k], n)
+			}
+		}
 		got := map[string]int{}
 		for n, e := range enums {
 			got[n.Obj().Pkg().Path()+"."+n.Obj().Name()] = len(e.Members)
